@@ -501,9 +501,10 @@ class PolarExtract(Extract):
     """arctan2(k·sin A, k·cos A) with a positive monomial k evaluates to A for A among the candidate angles;
     arctan(tan[B]) evaluates to B."""
 
-    def __init__(self, candidates, **kw):
+    def __init__(self, candidates, positive=(), **kw):
         super().__init__(**kw)
         self.candidates = candidates
+        self.positive = list(positive)     # expressions known to be positive (besides positive monomials)
         self.log = []
 
     def call(self, n):
@@ -514,7 +515,7 @@ class PolarExtract(Extract):
                 sa, ca = T.trig("sin", A), T.trig("cos", A)
                 if T.equal(s_ * ca, c_ * sa):
                     k = T.normalize(s_ * sa + c_ * ca)
-                    if len(k.d) == 1 and all(v > 0 for v in k.d.values()):
+                    if (len(k.d) == 1 and all(v > 0 for v in k.d.values())) or any(T.equal(k, q) for q in self.positive):
                         self.log.append((unparse(n), T.fmt(A), T.fmt(k)))
                         return A
             raise Unsupported(f"arctan2 arguments are not (k sin A, k cos A) of a candidate angle: {unparse(n)}")
@@ -586,6 +587,97 @@ def r01_11(chk, ft):
         want = T.deriv(pos[k], {cn[5]: Poly.const(1)}) * nudot
         obl_eq(chk, "R01.11", f"{f.ref}::velocity[{k}]", v[3 + k], want, "velocity = d(position)/dν · h/r²", where)
     chk.floor("R01.11", 6)
+
+
+def r01_13(chk, ft):
+    """cartesian → keplerian inverts keplerian → cartesian (whose terms R01.11 ties to the textbook): with (r, v) the
+    symbolic output of the forward conversion, every element is recovered.  Norms are replaced by their closed forms,
+    each justified by its own squared obligation."""
+    fwd = ft.conversions[("keplerian", "cartesian")]
+    rev = ft.conversions[("cartesian", "keplerian")]
+    names, _ = _unpack_of_coord(fwd)
+    cn = [nf(x) for x in names]
+    ex = Extract()
+    ex.run(body_without_doc(fwd.node))
+    st = ret_vec(ex.env, fwd)
+    a, e, i, Om, om, nu = (Poly.atom(x) for x in cn)
+    mu_atoms = [x for x in ex.env["h"].atoms()] if isinstance(ex.env.get("h"), Poly) else []
+    body_mu = None
+    for x in mu_atoms:
+        info = T.ATOMS.get(x)
+        if info and info[0] == "base":
+            for y in info[1].atoms():
+                if "body" in y:
+                    body_mu = y
+        elif "body" in x:
+            body_mu = x
+    if body_mu is None:
+        raise AnalysisError(f"{fwd.ref}: µ not identified")
+    MU = Poly.atom(body_mu)
+    p_ = a * (1 - e * e)
+    r_c = p_ / (1 + e * T.trig("cos", nu))
+    h_c = T.power(MU * p_, F(1, 2))
+    rv, vv = st[:3], st[3:]
+    where = loc(rev, rev.node)
+    hvec = T.cross(rv, vv)
+    ok_r = T.equal(T.dot(rv, rv), r_c * r_c)
+    ok_h = T.equal(T.dot(hvec, hvec), h_c * h_c)
+    chk.obl("R01.13", f"{rev.ref}::|r|", ok_r, "|r|² = (p/(1+e cos ν))²" if ok_r else "norm of the forward position is not r", where)
+    chk.obl("R01.13", f"{rev.ref}::|h|", ok_h, "|r × v|² = µ p" if ok_h else "norm of the angular momentum is not √(µ p)", where)
+    si, ci, sO, cO = T.trig("sin", i), T.trig("cos", i), T.trig("sin", Om), T.trig("cos", Om)
+    h_closed = [h_c * si * sO, -(h_c * si * cO), h_c * ci]
+    ok_hv = all(T.equal(hvec[k], h_closed[k]) for k in range(3))
+    chk.obl("R01.13", f"{rev.ref}::r×v", ok_hv, "r × v = h (sin i sin Ω, −sin i cos Ω, cos i)" if ok_hv else "angular momentum of the forward state is not h·n̂(i, Ω)", where)
+    rdotv_closed = r_c * h_c * e / p_ * T.trig("sin", nu)
+    ok_rv = T.equal(T.dot(rv, vv), rdotv_closed)
+    chk.obl("R01.13", f"{rev.ref}::r·v", ok_rv, "r · v = r (h e/p) sin ν" if ok_rv else "radial rate of the forward state is not (h e/p) sin ν", where)
+    v2_closed = MU * (Poly.const(2) / r_c - Poly.const(1) / a)
+    ok_v = T.equal(T.dot(vv, vv), v2_closed)
+    chk.obl("R01.13", f"{rev.ref}::|v|", ok_v, "|v|² = µ (2/r − 1/a) (vis-viva holds for the forward state)" if ok_v else "speed of the forward state violates vis-viva", where)
+    if not (ok_r and ok_h and ok_hv and ok_rv and ok_v):
+        return
+    c = rev.params()[1]
+
+    class CK(PolarExtract):
+        def call(self, n):
+            fname = unparse(n.func).split(".")[-1]
+            t = unparse(n)
+            if t in ("np.linalg.norm(r)", "norm(r)"):
+                return r_c
+            if t in ("np.linalg.norm(h)", "norm(h)"):
+                return h_c
+            if t in ("np.linalg.norm(v)", "norm(v)"):
+                return T.power(v2_closed, F(1, 2))
+            if t in ("np.cross(r, v)", "cross(r, v)"):
+                return list(h_closed)
+            if t in ("np.dot(v, r)", "np.dot(r, v)", "v @ r", "r @ v"):
+                return rdotv_closed
+            if fname == "arccos" and len(n.args) == 1:
+                x = self.ev(n.args[0])
+                for A in self.candidates + [i]:
+                    if T.equal(x, T.trig("cos", A)):
+                        return A
+                raise Unsupported(f"arccos argument is not the cosine of a candidate angle: {t}")
+            return super().call(n)
+
+        def ev(self, n):
+            t = unparse(n)
+            if t == f"{c}[:3]":
+                return list(rv)
+            if t == f"{c}[3:]":
+                return list(vv)
+            return super().ev(n)
+    ck = CK([Om, om + nu, nu, om], positive=[r_c, r_c * e, h_c * si], env={})
+    try:
+        ck.run(body_without_doc(rev.node), stop_on_unsupported=True)
+        back = ret_vec(ck.env, rev)
+    except Unsupported as err:
+        chk.obl("R01.13", f"{rev.ref}∘{fwd.qualname}", False, f"the reverse conversion does not invert the forward one: {err}", where)
+        return
+    want = [a, e, i, Om, om, nu]
+    for k in range(6):
+        obl_eq(chk, "R01.13", f"{rev.ref}∘{fwd.qualname}[{cn[k]}]", back[k], want[k], "element recovered", where)
+    chk.floor("R01.13", 11)
 
 
 def r01_9(chk, ft):
@@ -744,6 +836,8 @@ def run(chk):
     chk.guard(r01_10, chk, ft)
     chk.rule("R01.11", "keplerian → cartesian equals the textbook position and its time-derivative (term algebra)")
     chk.guard(r01_11, chk, ft)
+    chk.rule("R01.13", "cartesian → keplerian inverts keplerian → cartesian symbolically (term algebra, polar decoders)")
+    chk.guard(r01_13, chk, ft)
     chk.guard(r01_12, chk)
     chk.assume("positive-atom assumption: sqrt(x²)=x and |x|=x for the atoms r, a, e, cos φ (elements in their documented ranges)")
     chk.assume("angles are compared modulo 2π")
